@@ -360,6 +360,63 @@ class Check(PropertyCheck):
                                   found_input=True, signature="gateway:restart-after-inflight")
                     break
         rep.cov["restart_with_frame_in_flight"] = nrestart
+        # ... and after a session that ended in a failure: an ERROR frame of the NCP, or an NCP gone mute (the host spends its
+        # retry budget and declares the link failed by itself).  The handshake completed, so the link is usable again: the next
+        # send writes DATA frame 0, and the NCP's DATA frame 0 is accepted and acknowledged with ACK 1
+        nfailed = 0
+        for k in range(8):
+            for ending in ("error-frame", "mute"):
+                d = _c05.Driver()
+                bad = None
+                try:
+                    for i in range(k):
+                        d.submit(i, bytes([0x30 + i]))
+                        d.proto.data_received(_ar.wire(("ACK", 0, 0, (i + 1) % 8)))
+                        d.loop.settle()
+                    if ending == "error-frame":
+                        d.proto.data_received(_ar.wire(("ERROR", 2, 0x51)))
+                        d.loop.settle()
+                    else:
+                        d.submit(100, b"unanswered")
+                        guard = 0
+                        while d.outstanding() and guard < 12:
+                            guard += 1
+                            d.loop.tick()
+                    failed = d.proto._ncp_state == d.ash.NcpState.FAILED
+                    d.proto.send_reset()
+                    d.proto.data_received(_ar.wire(("RSTACK", 2, 0x0B)))
+                    d.loop.settle()
+                    del d.rec.log[:]
+                    d.submit(200, b"after")
+                    nfailed += 1
+                    sent = [e for e in d.rec.log if e[0] == "w" and e[1] == "data"]
+                    if not failed:
+                        bad = f"harness: the session did not end in the failed state ({ending})"
+                    elif not sent or sent[0][2] != 0:
+                        bad = (f"prior traffic of {k} frames, then the link failed ({ending}); reset request, RSTACK with the software-"
+                               f"reset code; the next send wrote {[(e[1], e[2]) for e in sent] or 'nothing'}"
+                               f"{' and ended: ' + repr(d.tasks[200].exception()) if d.tasks[200].done() and not d.tasks[200].cancelled() and d.tasks[200].exception() else ''}"
+                               f" -- DATA frame 0 is expected")
+                    else:
+                        del d.rec.log[:]
+                        d.proto.data_received(_ar.wire(("DATA", 0, 0, 1, b"ncp")))
+                        d.loop.settle()
+                        acks = [e for e in d.rec.log if e[0] == "w" and e[1] == "ack"]
+                        if not acks or acks[0][2] != 1:
+                            bad = (f"after the handshake that followed a failed session ({ending}) the NCP's DATA frame 0 was answered "
+                                   f"with {[(e[1], e[2]) for e in d.rec.log if e[0] == 'w']}, ACK 1 is expected")
+                except BaseException as e:  # noqa
+                    bad = f"the scenario crashed: {e!r}"
+                finally:
+                    d.close()
+                if bad:
+                    rep.violation({"input": {"prior_frames": k, "session_ended_by": ending},
+                                   "observed": bad, "required": "after a completed handshake both directions restart at frame number zero"},
+                                  found_input=True, signature="gateway:restart-after-failure")
+                    break
+            if bad:
+                break
+        rep.cov["restart_after_failed_session"] = nfailed
         nloss = 0
         for waiter in ("reset", "startup", "both"):
             for loss in ("error-frame", "rstack-other", "close", "lost", "eof"):
